@@ -35,7 +35,11 @@ def _failing(pid, sources):
 
 def _one(args):
     pid, kind, v, sources, base_keys = args
-    src = _apply(sources, v["edits"])
+    if "patch" in v:
+        from . import patches
+        src = patches.apply(sources, v["patch"])
+    else:
+        src = _apply(sources, v["edits"])
     if src is None:
         return (kind, v["id"], "skipped", "anchor text not present")
     fails, err = _failing(pid, src)
@@ -63,6 +67,18 @@ def run(pid, sources, seed=0, jobs=None):
     base_keys = set(base)
     muts = [m for m in variants.MUTANTS if pid in m["props"]]
     twins = [t for t in variants.TWINS if pid in t["props"] or "*" in t["props"]]
+    # the independently written changes kept under seeded/ (must be flagged by the check of their own property) and the
+    # behaviour-preserving refactorings kept under twins/ (must be silent for every property) are replayed in memory
+    from . import patches
+    for vid, prop, text, meta in patches.stored("seeded"):
+        if prop != pid:
+            continue
+        if meta.get("status") == "retired":
+            twins.append({"id": f"seed:{vid}(retired)", "props": [pid], "patch": text})
+        else:
+            muts.append({"id": f"seed:{vid}", "props": [pid], "rules": [""], "patch": text})
+    for vid, prop, text, meta in patches.stored("twins"):
+        twins.append({"id": f"twin:{vid}", "props": ["*"], "patch": text})
     rnd = random.Random(seed)
     rnd.shuffle(muts)
     tasks = [(pid, "mutant", m, sources, base_keys) for m in muts] + [(pid, "twin", t, sources, base_keys) for t in twins]
